@@ -94,6 +94,7 @@ def removed_added(v: dict) -> tuple[list[str], list[str]]:
 
 
 _MINMAX_DOM = re.compile(r"__dom___(?:min|max)(?:_\d+)+")
+_MINMAX_EXTREME = re.compile(r"__(?:min|max)_\d+_\d+__dom___(?:min|max)(?:_\d+)+")
 
 
 @matcher("minmax_empty_domain")
@@ -103,16 +104,106 @@ def minmax_empty_domain(job: dict, cres: dict, v: dict) -> bool:
     emitted = set()
     for line in (cres.get("result_text") or v.get("after") or "").split("\n"):
         head = line.split(":-")[0].strip()
-        m = _MINMAX_DOM.fullmatch(head.split("(")[0])
-        if m and line.startswith("__dom___m"):
+        name = head.split("(")[0]
+        # the emitted domain predicate, or (when another pass renamed/short-circuited it) the least/greatest element
+        # predicates computed from it: they are empty exactly when the domain is empty
+        if _MINMAX_DOM.fullmatch(name) or _MINMAX_EXTREME.fullmatch(name):
             arity = 0 if "(" not in head else head.count(",") + 1
-            emitted.add(f"{m.group(0)}/{arity}")
+            emitted.add(f"{name}/{arity}")
     if not emitted or "bad_aux" not in v:
         return False
     for _, present in v["bad_aux"]:
         if not emitted - set(present):
             return False
+    # the emptiness has to be genuine: every domain predicate used in the result has a rule, and in NO answer set of
+    # the source any element of a #min/#max aggregate holds for the failing instance (otherwise the domain is wrongly
+    # empty, which is a different defect)
+    text = cres.get("result_text") or v.get("after") or ""
+    used = set(re.findall(r"(?<![A-Za-z0-9_])__dom_[A-Za-z0-9_]*", text))
+    defined = {line.split("(")[0].split(" ")[0].rstrip(".") for line in text.split("\n") if line.startswith("__dom_")}
+    if used - defined:
+        return False
+    for facts, present in v["bad_aux"]:
+        keys = set()
+        for name in emitted - set(present):
+            m = re.search(r"__dom___(?:min|max)_\d+_(\d+)(?:_(\d+))?/", name + "/")
+            if m:
+                keys.add((int(m.group(1)), int(m.group(2) or 0)))
+        res = _minmax_elements_possible(job, facts)
+        if res is None:
+            return False
+        possible, allkeys = res
+        lines = {k[0] for k in keys}
+        # aggregates on the named source lines (other passes may have renumbered / removed rules: then any aggregate)
+        cands = {k for k in allkeys if k[0] in lines} or allkeys
+        if not any(k not in possible for k in cands):
+            return False
     return True
+
+
+def _vars(node) -> list:
+    from clingo.ast import ASTType  # pylint: disable=import-outside-toplevel
+
+    out: list = []
+
+    def rec(n):
+        if hasattr(n, "ast_type"):
+            if n.ast_type == ASTType.Variable:
+                out.append(n)
+            for key in n.child_keys:
+                rec(getattr(n, key))
+        elif hasattr(n, "__iter__") and not isinstance(n, str):
+            for x in n:
+                rec(x)
+
+    if node is not None:
+        rec(node)
+    return out
+
+
+def _minmax_elements_possible(job: dict, facts: list):
+    """{(source line, index on that line)} of the #min/#max body aggregates some element of which holds in SOME answer
+    set of the SOURCE for this instance (together with the positive body atoms of the rule); None if undecidable"""
+    import clingo  # pylint: disable=import-outside-toplevel
+    from clingo.ast import AggregateFunction, ASTType  # pylint: disable=import-outside-toplevel
+
+    from vt.common import parse  # pylint: disable=import-outside-toplevel
+
+    extra = []
+    per_line: dict = {}
+    for stm in parse(job["prog"]):
+        if stm.ast_type not in (ASTType.Rule, ASTType.Minimize):
+            continue
+        for lit in stm.body:
+            if lit.ast_type == ASTType.Literal and lit.atom.ast_type == ASTType.BodyAggregate and lit.atom.function in (
+                    AggregateFunction.Min, AggregateFunction.Max):
+                line = stm.location.begin.line
+                idx = per_line.get(line, 0)
+                per_line[line] = idx + 1
+                others = [str(b) for b in stm.body if b is not lit and b.ast_type == ASTType.Literal
+                          and (b.atom.ast_type == ASTType.SymbolicAtom or (
+                              b.atom.ast_type == ASTType.Comparison
+                              and not set(v.name for v in _vars(b)) & set(v.name for v in _vars(lit.atom.left_guard))))]
+                for elem in lit.atom.elements:
+                    conds = [str(c) for c in elem.condition] + others
+                    extra.append(f"vt__elem({line},{idx})" + (" :- " + ", ".join(conds) if conds else "") + ".")
+                break  # ngo translates the first aggregate of a rule only
+    ctl = clingo.Control(["0"] + [x for k, val in job["consts"] for x in ("-c", f"{k}={val}")], logger=lambda c, m: None)
+    try:
+        ctl.add("base", [], job["prog"] + "\n" + "\n".join(extra) + "\n" + "".join(f"{f}.\n" for f in facts))
+        ctl.ground([("base", [])])
+    except RuntimeError:
+        return None
+    hit: set = set()
+
+    def on_model(m):
+        for sym in m.symbols(atoms=True):
+            if sym.name == "vt__elem":
+                hit.add((sym.arguments[0].number, sym.arguments[1].number))
+
+    ctl.solve(on_model=on_model)
+    allkeys = {(line, i) for line, n in per_line.items() for i in range(n)}
+    return hit, allkeys
 
 
 @matcher("sumchains_none_symbol")
@@ -333,7 +424,7 @@ def domain_through_negation(job: dict, cres: dict, v: dict) -> bool:
     rules = [s for s in added if s.startswith("__dom_")] or [s for s in text.split("\n") if s.startswith("__dom_")]
     for rule in rules:
         head, _, body = rule.partition(":-")
-        if re.search(r"not\s+(not\s+)?__dom_", body) or re.search(r":\s*__dom_|__dom_[A-Za-z0-9_]*\([^)]*\)\s*:", body):
+        if re.search(r"not\s+(not\s+)?__dom_", body):
             return True
     return False
 
